@@ -1191,7 +1191,17 @@ class Models:
             from .regex import regex_once, SFindIter, regex_split, regex_findall, regex_sub
             flags = obj.flags & ~re.UNICODE
             if name == "finditer":
-                return SFindIter(obj.pattern, args[0], int(flags))
+                if len(args) > 2 or "endpos" in kwargs:
+                    raise Unsupported("re.Pattern.finditer with endpos")
+                it = SFindIter(obj.pattern, args[0], int(flags))
+                pos = args[1] if len(args) > 1 else kwargs.get("pos", 0)
+                if not isinstance(pos, int):
+                    pos = self.I.concretize_int(W, pos)
+                # pos does not slice the string: '^' and look-behind still see what stands before it
+                it.pos = min(max(int(pos), 0), len(chars(args[0])))
+                return it
+            if (len(args) > 1 or kwargs) and name in ("match", "search", "fullmatch", "findall"):
+                raise Unsupported(f"re.Pattern.{name} with pos / endpos")
             if name == "split":
                 return regex_split(self.I, W, obj, args[0], int(args[1] if len(args) > 1 else kwargs.get("maxsplit", 0)))
             if name == "findall":
